@@ -88,6 +88,7 @@ type Recorder struct {
 	onEvent func(kind string, n int) // called for begin/eval/exec/method events with the running number of such boundary events
 	nbound  int
 	noSnap  bool
+	nListeners int
 	// cancellation (CancelAtEvent): facts at the instant of cancel(), and the kind of event
 	CancelSnap State
 	CancelKind string
@@ -166,6 +167,10 @@ func (l *listener) ExecuteRuleEntry(ctx context.Context, cycle uint64, entry *as
 	l.rec.add(Event{Kind: "exec", Cycle: cycle, Rule: entry.RuleName, L: l.idx})
 	if l.idx == 0 {
 		l.rec.boundary("exec")
+	}
+	if l.idx == l.rec.nListeners-1 {
+		// the last listener returns: only now may the rule's action list start
+		l.rec.add(Event{Kind: "execdone", Cycle: cycle, Rule: entry.RuleName})
 	}
 }
 
@@ -554,6 +559,7 @@ func Run(kb *ast.KnowledgeBase, prog *Program, st State, cfg RunCfg) *RunResult 
 	if nl == 0 {
 		nl = 1
 	}
+	rec.nListeners = nl
 	for i := 0; i < nl; i++ {
 		eng.Listeners = append(eng.Listeners, &listener{rec: rec, idx: i})
 	}
